@@ -400,6 +400,10 @@ class HTMLSanitizer(object):
                         if not decls:
                             continue
                         value = '; '.join(decls)
+                        if stripentities(value) != value:
+                            # a CSS escape produced a reference ('\26 #106;'):
+                            # the text would change when decoded again
+                            continue
                     new_attrs.append((attr, value))
 
                 yield kind, (tag, Attrs(new_attrs)), pos
